@@ -10,7 +10,7 @@ from irsym.term import Term
 
 OPS = dict(DEFAULT=1, SIZED=2, EXTERNAL=3, FROMLIST=4, ALIGNED=5, COPYCON=6, MOVECON=7, DESTROY=8, COPYASSIGN=9, MOVEASSIGN=10,
            SETBACKING=11, EXPR=12, PLAININC=13, PLAINDEC=14, SCALE=15, DIVIDE=16, EQ=17, TRACE=18, FILL=19, FROMMATRIX=20, FACTORY=21,
-           ROTMAT=22, CLEARCACHE=23, PRINT=24, GETMATRIX=25, COMPONENTS=26, ROTATE=27, UNARYVIEW=28, CONVERT=31)
+           ROTMAT=22, CLEARCACHE=23, PRINT=24, GETMATRIX=25, COMPONENTS=26, ROTATE=27, UNARYVIEW=28, CONVERT=31, CHURN=32)
 OPNAME = {v: k for k, v in OPS.items()}
 EXPRS = {0: 'a+b', 1: 'move(a)+b', 2: 'a+move(b)', 3: 'move(a)+move(b)', 4: 'a-b', 5: 'move(a)-b', 6: '-a', 7: '-move(a)', 8: 'a*c', 9: 'move(a)*c',
          10: 'c*a', 11: 'c*move(a)', 12: 'iCommutator(a,b)', 13: 'ACommutator(a,b)', 14: 'a.Evolve(b,c)', 15: 'a.Evolve(buf)', 16: 'ElementwiseProduct(a,b)',
